@@ -192,6 +192,7 @@ func c09Cases(c runCfg) ([]*scratch.Pkg, []string, map[string]interface{}) {
 				}
 			}
 			pi.Ops = []*dialect.Op{o}
+			scatterPathParams(rng, pi)
 			sp.Paths = append(sp.Paths, pi)
 			ops = append(ops, opinfo{pi, o, body, bname})
 		}
